@@ -326,7 +326,11 @@ def concrete(cfg, inputs, only=None):
 
 
 def units(tier, seed):
-    return [cfg_of(*b) for b in BOUNDS[tier]] + [cfg_of(*b) for b in ADDON_BOUNDS[tier]]
+    us = [cfg_of(*b) for b in BOUNDS[tier]] + [cfg_of(*b) for b in ADDON_BOUNDS[tier]]
+    from . import c09     # how the payback period is shown in the report (N/A clause): the real writer on the symbolic model
+    shown = c09.CONFIGS[tier][:3] if tier == 'quick' else c09.CONFIGS[tier][:12]
+    us += [{'harness': 'payback-display', 'kind': k, 'L': L, 'T': T, 'K': K, 'variant': x} for (k, L, T, K, x) in shown]
+    return us
 
 
 def example_inputs(cfg):
@@ -359,6 +363,10 @@ def example_inputs(cfg):
 
 
 def run_unit(unit):
+    if unit.get('harness') == 'payback-display':
+        from . import c09
+        yield from c09.run_payback_display(unit)
+        return
     cfg = {k: v for k, v in unit.items() if k != 'tier'}
     tmo = 20000 if unit['tier'] == 'quick' else 60000
     spec = spec_of(cfg)
@@ -420,4 +428,8 @@ def run_unit(unit):
 
 
 def replay(cex):
+    if cex['config'].get('harness') == 'payback-display':
+        from . import c09
+        c = cex['config']
+        return c09.replay_payback(c09.params_for(c['kind'], c['L'], c['T'], c['K'], c['variant']), cex['inputs'])
     return concrete(cex['config'], cex['inputs'], only=cex.get('obligation'))
